@@ -209,7 +209,7 @@ package silence
 // setSilence: offer a locally built silence to the same last-writer-wins merge as replicated ones; index it when it
 // is new; gossip it when it changed the state. A marshalling error leaves everything untouched.
 //@ func (*Silences).setSilence
-//@   props C12 C02 C09
+//@   props C12 C02 C09 C11
 //@   requires s != nil && storeInv(s) && wfSil(msil) && s.broadcast != nil && s.metrics != nil && metricsOK(s)
 //@            && s.metrics.matcherCompileIndexSilenceErrorsTotal != nil && s.logger != nil
 //@   assumes len(msil.Silence.MatcherSets) > 0 ==> msil.Silence.MatcherSets[0] != nil
